@@ -98,6 +98,30 @@ Proof.
 move=> Hm Hk; rewrite !(mapped_rule_exact _ _ Hm Hk) -mulrDl; congr (_ / _); ring.
 Qed.
 
+(* the rule sees the integrand at the nodes only *)
+Lemma quad_ext xl xu f g : (forall t, f t = g t) -> Q xl xu f = Q xl xu g.
+Proof. by move=> E; rewrite /Q; apply: eq_bigr => i _; rewrite E. Qed.
+
+(* linear in the integrand, for finite sums *)
+Lemma quad_sum xl xu m (c : 'I_m -> F) (f : 'I_m -> F -> F) :
+  Q xl xu (fun t => \sum_k c k * f k t) = \sum_k c k * Q xl xu (f k).
+Proof.
+rewrite /Q (eq_bigr (fun i => \sum_k c k * ((w i * hw xl xu) * f k (x i * hw xl xu + ct xl xu)))); last first.
+  by move=> i _; rewrite mulr_sumr; apply: eq_bigr => k _; ring.
+rewrite exchange_big /=; apply: eq_bigr => k _; by rewrite mulr_sumr.
+Qed.
+
+(* hence EVERY polynomial of degree <= d is integrated exactly: the rule returns the difference of its antiderivative
+   sum_k p_k t^(k+1)/(k+1) at the two limits, in any order of the limits *)
+Theorem mapped_rule_exact_poly d xl xu (p : {poly F}) : moments_exact d -> (size p <= d.+1)%N ->
+  Q xl xu (fun t => p.[t]) = \sum_(k < size p) p`_k * ((xu ^+ k.+1 - xl ^+ k.+1) / k.+1%:R).
+Proof.
+move=> Hm Hs.
+rewrite (@quad_ext _ _ _ (fun t => \sum_(k < size p) p`_k * t ^+ k)); last by move=> t; rewrite horner_coef.
+rewrite quad_sum; apply: eq_bigr => k _; rewrite (mapped_rule_exact _ _ Hm) //.
+by have := ltn_ord k => Hk; rewrite -ltnS; apply: leq_trans Hk Hs.
+Qed.
+
 (* ---- gradients ---- *)
 Variable D : derivation F.
 
